@@ -522,7 +522,48 @@ theorem C34_fact_tie :
     Thanos.Facts.dedupSortReturns =
       ["ilvl > jlvl", "metaSlice[i].ULID.Compare(metaSlice[j].ULID) < 0", "ilen-jlen > 0"] := by decide
 
-/-- with the default flags (48h, 24h) the hypothesis of `C34` holds for every sync lag below 24h -/
-theorem C34_defaults (lag : Nat) (h : lag < 24 * 3600) : 24 * 3600 + lag < 48 * 3600 := by omega
+def digitsVal : List Char → Nat → Option Nat
+  | [], acc => some acc
+  | c :: cs, acc => if '0' ≤ c ∧ c ≤ '9' then digitsVal cs (10 * acc + (c.toNat - 48)) else none
+
+/-- a flag default such as "48h", "24h", "15m", "30s", "2d" in seconds -/
+def durationSeconds (s : String) : Option Nat :=
+  match s.toList.reverse with
+  | u :: ds =>
+    match ds with
+    | [] => none
+    | _ =>
+      match digitsVal ds.reverse 0 with
+      | some n =>
+        if u = 's' then some n else if u = 'm' then some (60 * n) else if u = 'h' then some (3600 * n)
+        else if u = 'd' then some (86400 * n) else none
+      | none => none
+  | [] => none
+
+/-- the flag defaults as extracted from cmd/thanos/compact.go and cmd/thanos/store.go, in seconds -/
+theorem C34_fact_default_values :
+    durationSeconds Thanos.Facts.compactDeleteDelayDefault = some 172800 ∧
+    durationSeconds Thanos.Facts.storeIgnoreDelayDefault = some 86400 ∧
+    durationSeconds Thanos.Facts.storeSyncIntervalDefault = some 900 := by decide
+
+/-- With the extracted defaults the hypothesis of `C34` holds for every sync lag below 24 h — in
+    particular for the default sync interval (15 m) plus any sync duration up to 23 h 45 m. -/
+theorem C34_defaults (dd ig sync : Nat)
+    (hdd : durationSeconds Thanos.Facts.compactDeleteDelayDefault = some dd)
+    (hig : durationSeconds Thanos.Facts.storeIgnoreDelayDefault = some ig)
+    (hsy : durationSeconds Thanos.Facts.storeSyncIntervalDefault = some sync) :
+    (∀ lag, lag < 24 * 3600 → ig + lag < dd) ∧ sync < 24 * 3600 := by
+  obtain ⟨h1, h2, h3⟩ := C34_fact_default_values
+  rw [h1] at hdd; rw [h2] at hig; rw [h3] at hsy
+  simp only [Option.some.injEq] at hdd hig hsy
+  subst hdd; subst hig; subst hsy
+  exact ⟨fun lag h => by omega, by omega⟩
+
+/-- … hence `C34` applies to a default deployment: every store gateway that completes a sync at
+    least every `lag < 24h` serves, at all times, every sample that was in the bucket at its last sync -/
+theorem C34_default_deployment (lag k : Nat) (hlag : lag < 24 * 3600) (acts : List Action) (s : State)
+    (h : run { deleteDelay := 172800, divisor := 2, ignoreDelay := 86400, lag := lag, levelTie := true } (init k) acts = some s) :
+    ∀ g ∈ s.gws, ∀ x ∈ g.known, serves s g x = true :=
+  C34 172800 86400 lag k acts s (by omega) h
 
 end Thanos.CompactProto
